@@ -97,19 +97,21 @@ Proof.
   - injection He as <-. rewrite app_nil_r. reflexivity.
 Qed.
 
-Lemma dec_pair_at fl bit (o1 o2 : option Z) s buf pre rest :
+Lemma dec_pair_at (enc : option Z -> result (list Z)) fl bit (o1 o2 : option Z) s buf pre rest :
+  (forall v, enc (Some v) = pack_u32 v) ->
   has fl bit = is_some o1 && is_some o2 ->
   (if has fl bit
-   then bind (opt_u32 o1) (fun x => bind (opt_u32 o2) (fun y => Ok (x ++ y)))
+   then bind (enc o1) (fun x => bind (enc o2) (fun y => Ok (x ++ y)))
    else Ok []) = Ok s ->
   buf = pre ++ s ++ rest ->
   dec_pair fl bit buf (length pre) =
   (if is_some o1 && is_some o2 then o1 else None,
    if is_some o1 && is_some o2 then o2 else None, length (pre ++ s)).
 Proof.
-  intros Hf He Hb. unfold dec_pair. rewrite Hf in *.
-  destruct o1 as [u|], o2 as [g|]; cbn [is_some andb opt_u32] in *;
+  intros Henc Hf He Hb. unfold dec_pair. rewrite Hf in *.
+  destruct o1 as [u|], o2 as [g|]; cbn [is_some andb] in *;
     try (injection He as <-; rewrite app_nil_r; reflexivity).
+  rewrite !Henc in He.
   bind_inv He x Ex. bind_inv He y Ey. injection He as <-.
   rewrite (get_int_at' buf u x pre (y ++ rest) Ex)
     by (rewrite Hb, <- !app_assoc; reflexivity).
@@ -196,7 +198,7 @@ Lemma roundtrip_gen a bs pre rest :
   NoDup (map fst (a_ext a)) -> pack a = Ok bs ->
   unpack (pre ++ bs ++ rest) (length pre) = (flags_of a, normalize a, (length pre + length bs)%nat).
 Proof.
-  intros Hnd Hp. unfold pack in Hp. cbv zeta in Hp.
+  intros Hnd Hp. unfold pack, pack_with in Hp.
   bind_inv Hp h Eh. bind_inv Hp s1 E1. bind_inv Hp s2 E2. bind_inv Hp s3 E3.
   bind_inv Hp s4 E4. bind_inv Hp s5 E5. injection Hp as <-.
   destruct (flags_has a) as (F1 & F2 & F3 & F4 & F5).
@@ -207,13 +209,13 @@ Proof.
     by (rewrite Hb, <- !app_assoc; reflexivity).
   rewrite (dec_size_at fl a s1 buf (pre ++ h) (s2 ++ s3 ++ s4 ++ s5 ++ rest) F1 E1)
     by (rewrite Hb, <- !app_assoc; reflexivity).
-  rewrite (dec_pair_at fl FLAG_UIDGID (a_uid a) (a_gid a) s2 buf ((pre ++ h) ++ s1)
-             (s3 ++ s4 ++ s5 ++ rest) F2 E2)
+  rewrite (dec_pair_at opt_u32 fl FLAG_UIDGID (a_uid a) (a_gid a) s2 buf ((pre ++ h) ++ s1)
+             (s3 ++ s4 ++ s5 ++ rest) (fun v => eq_refl) F2 E2)
     by (rewrite Hb, <- !app_assoc; reflexivity).
   rewrite (dec_mode_at fl a s3 buf (((pre ++ h) ++ s1) ++ s2) (s4 ++ s5 ++ rest) F3 E3)
     by (rewrite Hb, <- !app_assoc; reflexivity).
-  rewrite (dec_pair_at fl FLAG_AMTIME (a_atime a) (a_mtime a) s4 buf ((((pre ++ h) ++ s1) ++ s2) ++ s3)
-             (s5 ++ rest) F4 E4)
+  rewrite (dec_pair_at opt_time fl FLAG_AMTIME (a_atime a) (a_mtime a) s4 buf ((((pre ++ h) ++ s1) ++ s2) ++ s3)
+             (s5 ++ rest) (fun v => eq_refl) F4 E4)
     by (rewrite Hb, <- !app_assoc; reflexivity).
   rewrite (dec_ext_at fl a s5 buf (((((pre ++ h) ++ s1) ++ s2) ++ s3) ++ s4) rest F5 E5 Hnd)
     by (rewrite Hb, <- !app_assoc; reflexivity).
@@ -291,7 +293,7 @@ Proof.
   repeat match goal with Hc : _ && _ = true |- _ => apply andb_true_iff in Hc; destruct Hc end.
   destruct (flags_has a) as (F1 & F2 & F3 & F4 & F5).
   pose proof (flags_exact a) as Hfe.
-  unfold pack. cbv zeta.
+  unfold pack, pack_with.
   assert (Hh : pack_u32 (flags_of a) = Ok (be_encode 4 (flags_of a))).
   { apply pack_u32_total. rewrite Hfe.
     destruct (is_some (a_size a)), (is_some (a_uid a) && is_some (a_gid a)), (is_some (a_mode a)),
@@ -315,9 +317,9 @@ Proof.
       eexists; reflexivity. }
   destruct E3 as [s3 ->]. cbn [bind].
   assert (E4 : exists s4, (if is_some at_ && is_some mt
-                           then bind (opt_u32 at_) (fun x => bind (opt_u32 mt) (fun y => Ok (x ++ y)))
+                           then bind (opt_time at_) (fun x => bind (opt_time mt) (fun y => Ok (x ++ y)))
                            else Ok []) = Ok s4).
-  { destruct at_ as [av|], mt as [mv|]; cbn [is_some andb opt_u32 u32_ok] in *;
+  { destruct at_ as [av|], mt as [mv|]; cbn [is_some andb opt_time u32_ok] in *;
       try (eexists; reflexivity).
     rewrite !pack_u32_total by assumption. eexists. reflexivity. }
   destruct E4 as [s4 ->]. cbn [bind].
@@ -331,6 +333,44 @@ Proof.
       eexists. reflexivity.
     - apply andb_true_iff. split; [apply Z.leb_le; lia|assumption]. }
   destruct E5 as [s5 ->]. cbn [bind]. eexists. reflexivity.
+Qed.
+
+(* ------------------------------------------------------------------ *)
+(* the object's _flags field persists between calls                    *)
+(* ------------------------------------------------------------------ *)
+
+(* _pack is a function of the attribute fields only: neither the bytes written nor the flags the
+   object holds afterwards depend on the flags it held before (left by an earlier _unpack / _pack) *)
+Lemma pack_obj_ignores_prior :
+  forall (p1 p2 : Z) (a : attrs),
+    pack_obj p1 a = pack_obj p2 a /\ pack_obj p1 a = (pack a, flags_of a).
+Proof. intros p1 p2 a. split; reflexivity. Qed.
+
+(* so the round trip holds for an object with any history: decoded or encoded before, then edited *)
+Lemma roundtrip_any_history prior a bs rest :
+  NoDup (map fst (a_ext a)) -> fst (pack_obj prior a) = Ok bs ->
+  unpack (bs ++ rest) 0 = (snd (pack_obj prior a), normalize a, length bs).
+Proof. intros Hnd Hp. exact (roundtrip a bs rest Hnd Hp). Qed.
+
+(* decode, replace the fields by any others, encode, decode: the second decode yields the new fields *)
+Lemma decode_edit_encode buf pos a' bs rest :
+  NoDup (map fst (a_ext a')) ->
+  fst (pack_obj (fst (fst (unpack buf pos))) a') = Ok bs ->
+  unpack (bs ++ rest) 0 = (flags_of a', normalize a', length bs).
+Proof. intros Hnd Hp. exact (roundtrip a' bs rest Hnd Hp). Qed.
+
+(* without the reset the prior flags leak: a stale extended flag on an object with no fields is
+   written out (flags 0x80000000 and a zero count instead of flags 0), and a stale time flag makes
+   _pack raise on the missing values *)
+Lemma noreset_leaks :
+  let empty := MkAttrs None None None None None None [] in
+  pack_obj FLAG_EXTENDED empty = (Ok [0; 0; 0; 0], 0) /\
+  pack_obj_noreset FLAG_EXTENDED empty = (Ok [128; 0; 0; 0; 0; 0; 0; 0], FLAG_EXTENDED) /\
+  pack_obj_noreset FLAG_AMTIME empty = (Raise TypeErr, FLAG_AMTIME) /\
+  exists prior a, pack_obj_noreset prior a <> pack_obj prior a.
+Proof.
+  cbv zeta. repeat split.
+  exists FLAG_EXTENDED, (MkAttrs None None None None None None []). vm_compute. discriminate.
 Qed.
 
 (* the code before the repair swaps key and value of an extended pair *)
